@@ -331,4 +331,27 @@ theorem ordHyp_of_wf (S : Schema) (F : List DNode) (hw : wfL S F = true) (hd : K
             unfold kkey
             rw [e1, e2, hs]
 
+/-- `apply_diff_fragment` with the order hypotheses discharged -/
+theorem apply_diff_wf (S : Schema) (fx : Fixes) (A B : List DNode) (hA : wfForest S A = true)
+    (hB : wfForest S B = true) (hk : KeysDistinguished S (A ++ B)) :
+    ∃ B', apply S A (diffFromPtr S true A B fx) fx = .ok B' ∧ normL S B' = normL S B := by
+  have hw : wfL S (A ++ B) = true := by
+    simp only [wfForest, Bool.and_eq_true] at hA hB
+    apply wfL_of_forall
+    intro x hx
+    rcases List.mem_append.1 hx with hx | hx
+    · exact wfL_mem S A x hA.1.1 hx
+    · exact wfL_mem S B x hB.1.1 hx
+  apply apply_diff_fragment S fx _ (ordHyp_of_wf S (A ++ B) hw hk) A B hA hB
+  intro x hx
+  exact (mem_subnodesL (A ++ B) x).2 ⟨x, hx, subnodes_self x⟩
+
+/-- `diffSiblings_self` at the top level -/
+theorem diffFull_self (S : Schema) (defaults : Bool) (A : List DNode) (h : wfForest S A = true) :
+    diffFull S defaults A A = ([], 0) := by
+  simp only [wfForest, Bool.and_eq_true] at h
+  unfold diffFull
+  rw [diffSiblings_self S defaults _ true A h.1.1 h.1.2]
+  simp
+
 end LyModel.Diff
